@@ -553,6 +553,52 @@ class Ledger:
                 if k.startswith("capacity(") or int(k) <= cap:
                     return "A6 collect of an iterator truncated by take(%s) into an ArrayVec of capacity %d" % (k, cap)
             return None
+        if cls == "core_duration_float" and mir.callee_of(t)["name"] in ("mul_f64", "mul_f32") and len(t["args"]) == 2:
+            # Duration::mul_f64 panics when the factor is negative or not finite (or the product overflows): a factor
+            # that is a product of non-negative constants, U(0,1) samples, 1 + U(0,1) and unsigned integers is finite
+            # and >= 0 structurally; overflow of the product is a magnitude question (A-MAG)
+            def nonneg(x):
+                x = df.strip(x)
+                while x[0] == "cast":
+                    src = x[2]
+                    x = df.strip(src)
+                if x[0] == "const":
+                    return isinstance(x[1], (int, float)) and not isinstance(x[1], bool) and x[1] >= 0 and x[1] == x[1] \
+                        and x[1] != float("inf")
+                if x[0] == "bin" and x[1] in ("Mul", "MulWithOverflow"):
+                    return nonneg(x[2]) and nonneg(x[3])
+                if x[0] == "call" and x[2] == "mul" and len(x[3]) == 2:
+                    return nonneg(x[3][0]) and nonneg(x[3][1])
+                if x[0] == "bin" and x[1] in ("Add", "AddWithOverflow"):
+                    return nonneg(x[2]) and nonneg(x[3])
+                if x[0] == "call" and x[2] == "add" and len(x[3]) == 2:
+                    return nonneg(x[3][0]) and nonneg(x[3][1])
+                if x[0] == "call" and x[2] == "sample" and len(x[3]) == 2 and "Open01" in df.canon(x[3][1], b):
+                    return True
+                if x[0] == "path":
+                    # an unsigned integer field/parameter (converted to f64 by the cast peeled above)
+                    return False
+                return False
+
+            def factor_ok(x):
+                x0_ = df.strip(x)
+                if x0_[0] == "cast":
+                    inner = df.strip(x0_[2])
+                    # cast<f64>(cast<u32>(u8 field)) and the like: an unsigned integer is >= 0 and finite
+                    ty_ = x0_[3] if len(x0_) > 3 else ""
+                    j = inner
+                    while j[0] == "cast":
+                        ty_ = j[3] if len(j) > 3 else ty_
+                        j = df.strip(j[2])
+                    if ty_.startswith("u") and j[0] == "path":
+                        return True
+                if x0_[0] == "bin" and x0_[1] in ("Mul", "MulWithOverflow"):
+                    return factor_ok(x0_[2]) and factor_ok(x0_[3])
+                if x0_[0] == "call" and x0_[2] == "mul" and len(x0_[3]) == 2:
+                    return factor_ok(x0_[3][0]) and factor_ok(x0_[3][1])
+                return nonneg(x0_)
+            if factor_ok(pv.op_tree(t["args"][1])):
+                return "A9 core Duration times a factor that is structurally finite and >= 0 (constants, U(0,1) samples, unsigned integers); magnitude: A-MAG"
         if cls == "float_to_time":
             x0 = df.strip(pv.op_tree(t["args"][0]))
             if x0[0] == "call" and x0[2] == "powi" and len(x0[3]) == 2 and df.strip(x0[3][0]) == ("const", 2.0):
